@@ -367,6 +367,23 @@ func g4Rewrite(r *Repo, rep *Report) {
 			}
 		}
 	}
+	if autoname == nil || dedup == nil {
+		// the flags live in a struct (receiver or argument): fields named after them
+		autoname, dedup = nil, nil
+		ast.Inspect(fi.Decl.Body, func(x ast.Node) bool {
+			if sel, ok := x.(*ast.SelectorExpr); ok {
+				if f, ok := info.Uses[sel.Sel].(*types.Var); ok && f.IsField() && types.Identical(f.Type(), types.Typ[types.Bool]) {
+					switch f.Name() {
+					case "autoname":
+						autoname = f
+					case "dedup":
+						dedup = f
+					}
+				}
+			}
+			return true
+		})
+	}
 	// every store guard=true must be (a) inside `if name != call.Name` and (b) after a no-return branch taken when neither flag is set
 	nstores := 0
 	ast.Inspect(fi.Decl, func(x ast.Node) bool {
@@ -447,17 +464,22 @@ func isNeitherFlag(info *types.Info, e ast.Expr, a, d types.Object) bool {
 	if a == nil || d == nil {
 		return false
 	}
+	// a flag is a parameter, or a field read through a selector (pg.autoname)
+	isVar := func(x ast.Expr, v types.Object) bool {
+		switch y := ast.Unparen(x).(type) {
+		case *ast.Ident:
+			return info.Uses[y] == v
+		case *ast.SelectorExpr:
+			return info.Uses[y.Sel] == v
+		}
+		return false
+	}
 	isNot := func(x ast.Expr, v types.Object) bool {
 		u, ok := ast.Unparen(x).(*ast.UnaryExpr)
 		if !ok || u.Op != token.NOT {
 			return false
 		}
-		id, ok := ast.Unparen(u.X).(*ast.Ident)
-		return ok && info.Uses[id] == v
-	}
-	isVar := func(x ast.Expr, v types.Object) bool {
-		id, ok := ast.Unparen(x).(*ast.Ident)
-		return ok && info.Uses[id] == v
+		return isVar(u.X, v)
 	}
 	switch x := ast.Unparen(e).(type) {
 	case *ast.BinaryExpr:
